@@ -12,7 +12,8 @@ ASSUMPTIONS = ["source-to-model tie is differential testing; bool/int typing of 
 RULE = ("exhaustive: schemes {http,https,ws,wss,ftp,file,x,''} x port texts (absent, empty, 0, 1, 21, 80, 443, 8080, 65535, "
         "65536, 99999, leading zeros, non-digits, signs, unicode digits) x hosts (reg-name, IPv4, IPv6, IPv6+zone) x userinfo "
         "(none, user, user:pass) through the constructor; the same grid through with_port and build with int/None/bool/"
-        "negative/huge arguments; distinct = distinct request; non-trivial = port written or argument not None")
+        "negative/huge arguments; the constructor grid again through encoded=True (lazily split authority: an invalid port is rejected by every "
+        "accessor on every look, a written default port is elided by str()); distinct = distinct request; non-trivial = port written or argument not None")
 
 SCHEMES = ["http", "https", "ws", "wss", "ftp", "file", "x", ""]
 HOSTS = ["h", "example.com", "127.0.0.1", "[::1]", "[fe80::1%25e0]"]
